@@ -166,8 +166,16 @@ pub fn render_hpoa(f: &FactSet, rng: &mut Rng, o: &JaxOpts) -> String {
         rng.shuffle(&mut rows);
     }
     let mut out = String::new();
-    out.push_str("#description: \"HPO annotations for rare diseases\"\n#version: 2023-01-27\n");
-    out.push_str("database_id\tdisease_name\tqualifier\thpo_id\treference\tevidence\tonset\tfrequency\tsex\tmodifier\taspect\tbiocuration\n");
+    // comment block and column header are optional in the format: a third of the files start
+    // directly with a data row
+    match rng.below(3) {
+        0 => {}
+        1 => out.push_str("#description: \"HPO annotations for rare diseases\"\n"),
+        _ => {
+            out.push_str("#description: \"HPO annotations for rare diseases\"\n#version: 2023-01-27\n");
+            out.push_str("database_id\tdisease_name\tqualifier\thpo_id\treference\tevidence\tonset\tfrequency\tsex\tmodifier\taspect\tbiocuration\n");
+        }
+    }
     for r in rows {
         out.push_str(&r);
         out.push('\n');
